@@ -110,6 +110,20 @@ pub fn build_plan(property: &str, tier: &str, seed: u64, ctx: &Arc<ExecCtx>) -> 
             plan.rule = "directed: for 7 braille codes x 4 highlight styles, get_braille(id) for the first 24 ids and a non-id, get_navigation_node_from_braille_position(k) for k in 0..40, len, len+1, and get_braille_position / get_braille(nav id) along a navigation walk; read errors injected at the 1st-3rd read inside routing with the user's highlight style Off; plus seeded random histories mixing navigation commands, changes of expression/code/style with the three queries (25% of runs with injected transient read errors under CheckRuleFiles=All). Oracle: the full preference snapshot, navigation position, plain braille and speech are identical before and after each query (also a failed one); fault-free: queries succeed for ids and cells of the current expression, start <= end <= length, returned ids belong to the expression; with Off or a foreign id the braille equals the plain get_braille of the empty id. non-trivial = at least one query checked; distinct = distinct trace hashes".into();
             plan.required_probes = vec!["query_pure", "failed_query_pure", "position_in_range", "routing_ok", "unhighlighted_equal", "highlight_ok"].into_iter().map(String::from).collect();
         }
+        "C10" => {
+            let d = props::c10::directed();
+            let nd = d.len();
+            for (i, t) in d.into_iter().enumerate() {
+                // quick: a rotating third of the away-and-back pairs (all of them in thorough)
+                if !quick || i % 3 == (seed as usize) % 3 || i + 1 == nd {
+                    plan.units.push(Unit::Fixed(Box::new(t)));
+                }
+            }
+            seeded(&mut plan, "c10-random", if quick { 300 } else { 30_000 }, 10);
+            seeded(&mut plan, "c10-multi", if quick { 60 } else { 3_000 }, 1010);
+            plan.rule = "directed: every ordered pair X->Y->X of values of Language, SpeechStyle, BrailleCode, Verbosity, TTS, DecimalSeparator, BlockSeparators, CheckRuleFiles over eight expressions with checkpoints before, away and back (getters 1..n times in different orders, navigation and routing between reads) and the Language=Auto/LanguageAuto flows; seeded random histories of 15-90 preference switches (39 preferences), set_mathml, getters, navigation, routing, set_rules_dir, clock advances and touches of rule files (mtime moves, content does not) with checkpoints in re-set and as-is mode: the four outputs must equal byte for byte (ids normalised) those of a fresh session given the session's current preference values; and multi-session runs: 2-3 sessions with different configurations in one world interleaved by the seeded baton scheduler at every API call and every seam call, each session's results must equal those of its solo run. non-trivial = at least one checkpoint or solo comparison was made; distinct = distinct trace hashes".into();
+            plan.required_probes = vec!["checkpoint_reset_equal", "checkpoint_asis_equal", "getter_repeated_same", "touch_forces_reload", "session_equals_solo_run"].into_iter().map(String::from).collect();
+        }
         "C11" => {
             for t in props::c11::directed() {
                 plan.units.push(Unit::Fixed(Box::new(t)));
@@ -129,6 +143,8 @@ pub fn unit_trace(plan: &Plan, i: usize, ctx: &Arc<ExecCtx>) -> Trace {
         Unit::Seeded { gen, seed } => match gen.as_str() {
             "c14-random" => props::c14::random_trace(*seed, ctx, &plan.c14_reachable),
             "c11-random" => props::c11::random_trace(*seed),
+            "c10-random" => props::c10::random_trace(*seed),
+            "c10-multi" => props::c10::multi_session_trace(*seed, false),
             "c09-random" => props::c09::random_trace(*seed),
             "c20-random" => props::c20::random_trace(*seed),
             "c12-random" => props::c12::random_trace(*seed, &props::common::pref_names(&ctx.base)),
@@ -151,6 +167,7 @@ pub fn nontrivial(property: &str, out: &RunOutput) -> bool {
     match property {
         "C14" => out.stats.probes.get("call_consumed_fault").copied().unwrap_or(0) > 0 || out.stats.faults_consumed.values().sum::<u64>() > 0,
         "C08" => out.stats.api_err > 0,
+        "C10" => out.stats.probes.get("checkpoint_reset_equal").copied().unwrap_or(0) + out.stats.probes.get("checkpoint_asis_equal").copied().unwrap_or(0) + out.stats.probes.get("session_equals_solo_run").copied().unwrap_or(0) > 0,
         "C09" => out.stats.probes.get("handed_out_id_checked").copied().unwrap_or(0) > 0,
         "C20" => out.stats.probes.get("query_pure").copied().unwrap_or(0) > 0,
         "C12" => out.stats.probes.get("read_back_ok").copied().unwrap_or(0) > 0 && out.stats.probes.get("set_rejected").copied().unwrap_or(0) > 0,
